@@ -5,6 +5,46 @@ HOOK_COMMITS = ["80fcbe6"]
 TODO = "check not built yet in this round; design in DESIGN.md section 5 (to be claimed when the TLA+ module and harness exist)"
 
 CLAIMS = {
+    "C01": {
+        "text": "TLA+ contract of HTTP routing (HttpRouter.tla: RouteSpec = lexicographically first entry whose host (port stripped), path (exact/prefix/regexp), method and header conditions match, "
+                "rewrite per mode, else 400 > 405 > 404, unknown backend 503; strings as character sequences, Strings.tla) and an implementation-shaped Search (two loops, two mismatch flags); TLC checks "
+                "the refinement for all rule sets over a template universe x 144 requests; TLC-generated behaviours are replayed on the real mux (cacheSize 0) and seeded random richer configurations "
+                "(longer paths, up to 4x4 entries, ports, IPv6 hosts) run on the real mux are judged by TLC against the contract.",
+        "note": "regexps of the family ^?lit(.*)?$? (what the code does with them: unanchored match, $1 replacement); in-process mux.ServeHTTP; HTTP/3 stubbed; acme-challenge bypass excluded",
+        "technique": "TLA+ spec + TLC refinement check; model-based test generation (TLC -simulate) replayed on the real mux; TLC trace validation",
+    },
+    "C05": {
+        "text": "IPFilter.tla: Denied as the contract, AllowImpl/chain as implementation layer, exhaustive at width 2 with two address families; every decision vector replayed on the real IPFilter and random "
+                "real v4/v6 addresses and CIDRs (bits computed independently with net/netip) validated by TLC. Mux level (HttpRouter.tla): (i) a client denied by the server, owning-rule or route filter "
+                "gets 4xx (403 if the route exists) and is never dispatched, (ii) a client allowed everywhere is routed as without filters, with and without the cache and after any history incl. evictions, "
+                "model-checked; TLC behaviours replayed on four real muxes (filters / filter-less twin x cache off / on); random traces (clients via RemoteAddr, X-Forwarded-For, X-Real-IP) validated by TLC.",
+        "note": "unambiguous client address only (realip's choice among several forwarded addresses is third-party); a client denied only by a filter of some other rule/entry may get 403 or be routed (reading iii)",
+        "technique": "TLA+ spec + TLC model checking (exhaustive decision table, refinement with cache and evictions); TLC vectors/behaviours replayed on the real code; TLC trace validation",
+    },
+    "C12": {
+        "text": "HttpRouter.tla with the route cache: Request (hit branch, insertions), Evict (any entry at any time - a sound abstraction of ARC), Purge; property Transparent: every outcome with the cache equals "
+                "the cache-less reference, for every history; TLC proves it for the repaired cache design and refutes it for the pinned one (four defect classes, all reproduced on the real mux and repaired). "
+                "TLC-generated histories (requests biased towards key neighbours: same key, colliding split, other host spelling) and random 20-200-request traces run on twin real muxes (cacheSize 1, 2, 3, 64 vs 0) "
+                "and are judged against TLC's reference.",
+        "note": "ARC abstracted to arbitrary eviction; if the cache-less mux itself departs from the reference the run is inconclusive (that is C01), not a C12 violation",
+        "technique": "TLA+ spec + TLC model checking; model-based histories (TLC -simulate) replayed on twin real muxes; TLC trace validation",
+    },
+    "C18": {
+        "text": "TLA+ contract of the cluster lock (ClusterMutexContract) and an implementation-shaped model of mutex.go over etcd's lock recipe (key per member lease, per-handle local lock, time-outs): TLC checks "
+                "Mutex, NoResidue, termination under fairness and refinement. TLA+ contract of admin-API mutations (atomic, gap-free versions, 409/400, refusals modify nothing); a per-etcd-operation model "
+                "refines it under the lock (and not without it). TLC-generated request histories are replayed on real api.Servers of two members on an embedded etcd; recorded concurrent Lock/Unlock histories "
+                "(2-3 members, shared handles, injected etcd latency, time-outs) and concurrent admin-API histories are validated by TLC as linearisable with the versions pinned.",
+        "note": "etcd's lock recipe and leases trusted; lease expiry while holding not reproduced on the code; mock supervisor with two test kinds; 5xx replies admitted as no-ops",
+        "technique": "TLA+ spec + TLC model checking (refinement, liveness); model-based tests (TLC -simulate) on real servers; TLC trace validation (linearisation search)",
+    },
+    "C19": {
+        "text": "TLA+ model of syncer.run (first pull, watch pull, ticker pull, compare, blocking send, cancelled watch, server restart): TLC checks RealStates, Monotone, Distinct, FirstIsCurrent and Converges as a "
+                "temporal property under fairness (violated without the ticker). Recorded histories of real syncers (Sync, SyncRaw, SyncPrefix, SyncRawPrefix; fast, slow and stalling consumers) on an embedded "
+                "etcd with server restarts and compaction-cancelled watches are validated by TLC against the contract; the store history is rebuilt from the writer's inv/ret events; convergence is checked "
+                "as a bounded-deadline claim.",
+        "note": "the consumer's view starts empty (an initially empty prefix needs no delivery); 40 s convergence deadline at a 200 ms pull interval; no writes while the server is down; etcd reads atomic",
+        "technique": "TLA+ spec + TLC model checking incl. liveness; TLC trace validation of recorded executions",
+    },
     "C17": {
         "text": "TLA+ contract of a run-time changeable connection cap (specs/ConnCapContract.tla) and implementation-shaped model of x/sync's FIFO weighted semaphore, asynchronous SetMaxCount, LimitListener "
                 "acceptor and release-once close (specs/ConnCap.tla), model-checked; refinement shown for the ordered-tuner code and refuted for unordered tuners (the defect that was repaired). TLC schedules "
